@@ -282,12 +282,26 @@ def _presort(e, op, tables):
     out = []
     for t in tables:
         src = [list(r) for r in t]
-        if op.squares:
+        if op.squares and not _key_cells_present(t, op.key):
+            # a row lacks a key cell: the key the operator sees is the
+            # padding value, so "sorted by the key" is only well defined on
+            # the squared-up table.  Otherwise the rows stay ragged: the
+            # presorted path must still square them up itself.
             src = e.stack(src, missing=op.missing)
         v = e.sort(src, op.key, reverse=op.reverse) if op.key is not None \
             else e.sort(src)
         out.append([list(r) for r in iter(v)])
     return out
+
+
+def _key_cells_present(table, key):
+    hdr = [str(h) for h in table[0]]
+    keys = key if isinstance(key, (list, tuple)) else [key]
+    try:
+        idx = [hdr.index(k) for k in keys]
+    except ValueError:
+        return False
+    return all(all(i < len(r) for i in idx) for r in table[1:])
 
 
 def _run_knobs(e, case, log, sb, probes):
